@@ -369,9 +369,47 @@ impl W {
         if ok {
             return Err(("cli-run-missing-entry".into(), "`roto run <dir> does_not_exist` exited successfully".into()));
         }
+        let mut single_form = None;
+        if fs.len() == 1 {
+            // the same script as a single file, under several file names and path spellings
+            let fname = ["script.roto", "mod.roto", "pkg.roto", "main.roto"][c.below(4)];
+            let form = c.below(4);
+            let sub = self.tmp.join("single").join("sub");
+            std::fs::create_dir_all(&sub).map_err(|e| ("io".to_string(), e.to_string()))?;
+            std::fs::write(sub.join(fname), &main_text).map_err(|e| ("io".to_string(), e.to_string()))?;
+            let (cwd, arg): (std::path::PathBuf, String) = match form {
+                0 => (self.tmp.clone(), sub.join(fname).to_string_lossy().to_string()),
+                1 => (sub.clone(), fname.to_string()),
+                2 => (sub.clone(), format!("./{fname}")),
+                _ => (self.tmp.join("single"), format!("sub/{fname}")),
+            };
+            let run_in = |args: &[&str]| -> Result<(bool, String, String), (String, String)> {
+                let out = Command::new(&self.cli).args(args).current_dir(&cwd).output().map_err(|e| ("io".to_string(), e.to_string()))?;
+                Ok((out.status.success(), String::from_utf8_lossy(&out.stdout).to_string(), String::from_utf8_lossy(&out.stderr).to_string()))
+            };
+            let (ok, _, err) = run_in(&["check", &arg])?;
+            evals += 1;
+            if ok != expect_compile {
+                return Err(("cli-check-status:single-file".into(), format!("`roto check {arg}` (file name {fname}) exit success = {ok}, script compiles = {expect_compile}\n{err}\n{main_text}")));
+            }
+            let (ok, _, err) = run_in(&["test", &arg])?;
+            evals += 1;
+            if ok != (expect_compile && all_accept) {
+                return Err(("cli-test-status:single-file".into(), format!("`roto test {arg}` exit success = {ok}; compiles = {expect_compile}, every test accepts = {all_accept}\n{err}\n{main_text}")));
+            }
+            let (ok, out, err) = run_in(&["run", &arg])?;
+            evals += 1;
+            if ok != expect_run || (expect_run && out.matches("ran-main-").count() != 1) {
+                return Err(("cli-run-status:single-file".into(), format!("`roto run {arg}` exit success = {ok}, expected {expect_run}; output {out:?}\n{err}\n{main_text}")));
+            }
+            single_form = Some(format!("{fname}:{form}"));
+        }
         let mut o = Outcome::pass();
         o.evals = evals;
         o.nontrivial = true;
+        if let Some(f) = single_form {
+            o.classes.push(format!("cli-single-file:{f}"));
+        }
         o.classes.push("sub:cli".into());
         o.classes.push(format!("cli-variant:{variant}"));
         o.hash = fnv(format!("{text}{variant}{entry_variant}").as_bytes());
@@ -388,6 +426,34 @@ impl WorkerState for W {
 
     fn run(&mut self, case: &Case, render: bool) -> Outcome {
         let empty: Vec<u8> = Vec::new();
+        if case.first().map(|c| c.as_slice()) == Some(b"#!cli-single") {
+            // literal: ["#!cli-single", file name, "bare" | "dot" | "sub" | "abs", script text, "1" if it compiles]
+            let g = |i: usize| String::from_utf8_lossy(case.get(i).unwrap_or(&empty)).to_string();
+            let (fname, form, text, want) = (g(1), g(2), g(3), g(4) == "1");
+            if !self.cli.exists() {
+                return Outcome::discard("roto CLI binary not built");
+            }
+            let _ = std::fs::remove_dir_all(&self.tmp);
+            let sub = self.tmp.join("single").join("sub");
+            let _ = std::fs::create_dir_all(&sub);
+            let _ = std::fs::write(sub.join(&fname), &text);
+            let (cwd, arg): (std::path::PathBuf, String) = match form.as_str() {
+                "abs" => (self.tmp.clone(), sub.join(&fname).to_string_lossy().to_string()),
+                "bare" => (sub.clone(), fname.clone()),
+                "dot" => (sub.clone(), format!("./{fname}")),
+                _ => (self.tmp.join("single"), format!("sub/{fname}")),
+            };
+            return match Command::new(&self.cli).args(["check", &arg]).current_dir(&cwd).output() {
+                Ok(out) if out.status.success() == want => {
+                    let mut o = Outcome::pass();
+                    o.nontrivial = true;
+                    o.render = Some(format!("roto check {arg}\n{text}"));
+                    o
+                }
+                Ok(out) => Outcome::fail("cli-check-status:single-file", format!("`roto check {arg}` exit success = {}, script compiles = {want}\n{}\n{text}", out.status.success(), String::from_utf8_lossy(&out.stderr))),
+                Err(e) => Outcome::fail("io", e.to_string()),
+            };
+        }
         let ctl = case.first().unwrap_or(&empty);
         let s = decode(ctl);
         let text = self.render_only(case);
